@@ -75,6 +75,16 @@ def cases(tier, rng, schema, feats):
                 if enc.startswith("short") and L > 255:
                     continue
                 add("auth", apdu(0, 2, rng.choice([3, 7, 8]), 0, bytes(data), enc))
+    # a well-formed Authenticate body followed by 1..4 surplus bytes (zeros and random), in every encoding: the length must match exactly
+    for k in (0, 1, 5, 64, 190, 250, 255):
+        for surplus in (1, 2, 3, 4):
+            for tailb in (b"\x00" * surplus, rng.bytes(surplus)):
+                data = rng.bytes(64) + bytes([k]) + rng.bytes(k) + tailb
+                for enc in ("short", "shortle", "ext", "extle"):
+                    if enc.startswith("short") and len(data) > 255:
+                        continue
+                    for p1 in (3, 7, 8):
+                        add("surplus", apdu(0, 2, p1, 0, data, enc))
     # malformed framings
     for k in range(0, 12):
         add("frame", rng.bytes(k))
